@@ -20,7 +20,7 @@ def list_jobs(tier):
     ids = [i for i in corpus.registry_ids(include_f64=False) if _is_symbolic(i)]
     if tier == "quick":
         ids = ids[:: max(1, len(ids) // 150)]
-    return families.ids("A4", tier) + ids
+    return families.ids("A4", tier) + [i for i in families.ids("A8", tier) if "/sym_" in i] + ids
 
 
 def options(tier, binding):
